@@ -160,5 +160,6 @@ mut('benign-findprob-reversed', ALLG, G, "        for item in pt:\r\n           
 mut('benign-prob-times-reciprocal', ['C03', 'C06', 'C13', 'C19', 'C01'], CP, "prob_list[index] = (value[0],value[1]/total_count)", "prob_list[index] = (value[0],value[1] * (1/total_count))", benign=True, desc='count * (1/total): last-bit differences in every written probability')
 mut('benign-print-via-write', ['C09', 'C12', 'C16'], G, "                print(guess)", "                sys.stdout.write(guess + '\\n')", benign=True)
 mut('benign-queue-le', ALLG[:5], Q, "        return self.pt_item['prob'] >= other.pt_item['prob']", "        return not (self.pt_item['prob'] < other.pt_item['prob'])", benign=True)
+mut('revert-F-C05b', 'C05', DR + 'keyboard_walk.py', "if sys.getrecursionlimit() < len(password) + 1000:", "if False:", desc='only the thorough tier generates the 1000-walk strings: run with --tier thorough')
 json.dump(M, open(os.path.join(os.path.dirname(os.path.abspath(__file__)), 'mutants.json'), 'w'), indent=1)
 print(len(M), 'mutants')
